@@ -222,11 +222,18 @@ def geometry_rule(ctx, rr, with_c):
             b = follow_setup(F, DI, b0)
             if b is None:
                 raise AnchorMissing("%s: could not find the body assigning the geometry" % ref)
-            P = {p["name"]: ("var", p["name"]) for p in b.params if p.get("k") == "PBind"}
+            # parameters by position (never by name): (self, n, max_shard) in an impl of ShardEdge; an inherent
+            # helper takes (self, n, <something else>)
+            is_trait_body = " as func::shard_edge::ShardEdge" in b.key
+            roles = ["n", "max_shard" if is_trait_body else "aux"]
+            nonself = [p for p in b.params if p.get("k") == "PBind" and p["name"] != "self"]
+            P = {}
             W = Walker(F, b, inline=DI)
-            for p in b.params:
-                if p.get("k") == "PBind":
-                    W.T.env[p["id"]] = ("var", p["name"])
+            for p, role in zip(nonself, roles):
+                used = any(x.get("k") == "Path" and x.get("res") == "local" and x.get("id") == p["id"] for x in walk(b.body))
+                if used:
+                    P[role] = ("var", role)
+                W.T.env[p["id"]] = ("var", role)
             assigns = {}
 
             def on_node(Wk, n, K, assigns=assigns):
@@ -308,7 +315,7 @@ def geometry_rule(ctx, rr, with_c):
             unevaluated = 0
             for n in sorted(pts):
                 # in the sharded logic the size seen by c() is the largest shard, at most n
-                env = {"n": ("int", n), "max_shard": ("int", n), "_n": ("int", n), "_max_shard": ("int", n)}
+                env = {"n": ("int", n), "max_shard": ("int", n), "aux": ("int", 1 << 64)}
                 v = eval_pieces(CE, c_t, env)
                 if v is None:
                     unevaluated += 1
